@@ -3,7 +3,7 @@
 //! Leaves: Bool I64 U64 F64 F32 Bytes Text Json Vector.
 //! Constructors over child types: Option(T); Array([]); Array([T]);
 //! Array([T,U]) (tuple / heterogeneous); wildcard Map with Text / I64 / Bytes
-//! key; keyed Map {a: T} and {a: T, b: Option(U)}.
+//! key; keyed Map {a: T} and {a: T, b: Option(U)}; the open Map({}).
 //!
 //! Level 1 = leaves. Level n+1 applies every constructor to children of which
 //! at least one has level n. Unary constructors range over `unary` children,
@@ -53,6 +53,10 @@ pub fn wild_i64(t: Ft) -> Ft {
 pub fn wild_bytes(t: Ft) -> Ft {
     Ft::Map(BTreeMap::from([(FieldKey::Bytes(b"*".to_vec()), t)]))
 }
+/// the open map: declares no key at all and accepts every map
+pub fn open_map() -> Ft {
+    Ft::Map(BTreeMap::new())
+}
 /// keyed map with a single declared key (must not be mistaken for a wildcard map)
 pub fn keyed1(t: Ft) -> Ft {
     Ft::Map(BTreeMap::from([(FieldKey::Text("a".into()), t)]))
@@ -83,11 +87,12 @@ pub fn rep_composites(child: &[Ft]) -> Vec<Ft> {
 ///
 /// `unary`: children of Option / Array([T]) / wildcard maps.
 /// `pairs`: (T, U) children of tuple and keyed map.
-/// `with_untyped_array`: emit Array([]) (only once, at level 2).
+/// `with_untyped_array`: emit Array([]) and the open Map({}) (only once, at level 2).
 pub fn compose(unary: &[Ft], pairs: &[(Ft, Ft)], with_untyped_array: bool) -> Vec<Ft> {
     let mut out = Vec::new();
     if with_untyped_array {
         out.push(Ft::Array(vec![]));
+        out.push(open_map());
     }
     for t in unary {
         out.push(opt(t.clone()));
